@@ -711,6 +711,7 @@ var macroDeclForms = []string{
 	"$(m) = v\n", "$(m) = v1 v2\n", "$(m) = $(undef)\n", "$(m) = $(m)\n", "$(m) = a\n$(m) = b c\n", "$(m) = \"\"\n",
 	"$(m) = \"x y\"\n", "$(m) = {env:C20_A}\n", "$(m) = }\n", "$(m) = \"}\" x\n", "$(m) = { }\n", "$(m) =\n", "$(m) v\n", "$(m = v\n",
 	"$(n) = w\n$(m) = pre$(n)post $(n)\n", "$(m) = x$(undef)y\n", "", "$(m)\n", "$(m) = =\n", "$(m) = \\\n v\n",
+	"$($(n)) = v\n", "$($(m)) = v\nd $($(m))\n", "$(m) = v\n$() = w\nd $() x$()y\n",
 }
 var macroUseForms = []string{
 	"d $(m)\n", "d pre$(m)\n", "d $(m)post\n", "d a$(m)b$(m)c\n", "d \"q $(m) q\"\n", "$(m) d\n", "d$(m) v\n", "b {\n c $(m)\n e {\n  f x$(m)\n }\n}\n",
